@@ -41,6 +41,9 @@ T = {
  "C09": ("property-based testing (byte-stream PBT, u = k^n + delta constructions, refint root oracle) + libFuzzer in thorough",
          "Generated-input search over sqrt/sqrtrem/mpn_sqrtrem/root/nthroot/rootrem and the perfect-square/perfect-power predicates with u built as k^n, k^n+-1, k^n+-2 (k with long runs of ones, n from 1 to beyond the bit length, negative u with odd n), odd and even limb counts and all permitted aliasings; results are decided by refint integer roots, remainders u - root^n and the exactness equivalence. Exploration with an exact executable oracle.",
          "DESIGN.md section 5 C09"),
+ "C11": ("property-based testing (byte-stream PBT, boundary-value generators, exact rational / IEEE-truncation oracle) + libFuzzer in thorough",
+         "Generated-input search over the comparison functions (mpz/mpq/mpf, incl. _ui/_si/_d/_z forms, doubles taken from bit patterns incl. subnormals and infinities) and the conversions to/from C types (set/get ui/si/ux/sx/d, d_2exp, fits predicates) with operands concentrated around every C type boundary and values with more than 53 significant bits; the sign of the exact difference and the exact truncation toward zero are computed with the reference bignum. Where the manual calls the result system dependent (below the normal double range, get_si out of range) nothing stricter is asserted. Exploration with an exact oracle.",
+         "DESIGN.md section 5 C11"),
 }
 built = [i for i in ids if i in T and (os.path.exists(os.path.join(ROOT, "props", i + ".cc")) or os.path.exists(os.path.join(ROOT, "props", i + "_run.py")))]
 checks = []
